@@ -1,5 +1,5 @@
 (* Tie for C01.  A case is a static interface DAG and a history; every step carries what the
-   implementation did: an exception code (0 none, 1 ValueError, 2 anything else) and, at the
+   implementation did: an exception code (0 none, 1 ValueError, 2 TypeError, 3 AttributeError, 9 anything else) and, at the
    steps the generator chose to query, what every live instance and every class answered
    (optionally preceded by a query of the class OBJECTS alone, made before anything at that
    step computes implementedBy(cls): what a class provides must not depend on that).
@@ -38,12 +38,15 @@ Definition live_ids (st : state) : list obj :=
   map fst (filter (fun p => i_live (snd p)) (combine (seq 0 (length (insts st))) (insts st))).
 Definition class_ids (st : state) : list cls := seq 0 (length (classes st)).
 
-Definition model_query (g : igraph) (st : state) : qobs :=
-  (map (fun o => (o, mask_of (provided g st (TInst o)), mask_by g (i_providedBy g st (TInst o)),
-                  dpb st (TInst o))) (live_ids st),
-   map (fun c => (c, mask_of (implemented g st c), mask_by g (i_implementedBy g st c),
-                  mask_of (provided g st (TCls c)), mask_by g (i_providedBy g st (TCls c)),
-                  dpb st (TCls c))) (class_ids st)).
+Definition model_iobs (g : igraph) (st : state) (o : obj) : iobs :=
+  (o, mask_of (provided g st (TInst o)), mask_by g (i_providedBy g st (TInst o)), dpb st (TInst o)).
+Definition model_cobs (g : igraph) (st : state) (c : cls) : cobs :=
+  (c, mask_of (implemented g st c), mask_by g (i_implementedBy g st c),
+   mask_of (provided g st (TCls c)), mask_by g (i_providedBy g st (TCls c)), dpb st (TCls c)).
+(* the model's answers for the instances / classes the implementation was asked about *)
+Definition model_query (g : igraph) (st : state) (q : qobs) : qobs :=
+  (map (fun a : iobs => let '(o, _, _, _) := a in model_iobs g st o) (fst q),
+   map (fun a : cobs => let '(c, _, _, _, _, _) := a in model_cobs g st c) (snd q)).
 
 Definition iobs_eqb (a b : iobs) : bool :=
   let '(o, p, ip, d) := a in let '(o', p', ip', d') := b in
@@ -54,24 +57,22 @@ Definition cobs_eqb (a b : cobs) : bool :=
 Definition qobs_eqb (a b : qobs) : bool :=
   list_eqb iobs_eqb (fst a) (fst b) && list_eqb cobs_eqb (snd a) (snd b).
 
-Definition model_cp (g : igraph) (st : state) : list cpobs :=
-  map (fun c => (c, mask_of (provided g st (TCls c)), mask_by g (i_providedBy g st (TCls c)), dpb st (TCls c)))
-      (class_ids st).
+Definition model_cp (g : igraph) (st : state) (cp : list cpobs) : list cpobs :=
+  map (fun a : cpobs => let '(c, _, _, _) := a in
+         (c, mask_of (provided g st (TCls c)), mask_by g (i_providedBy g st (TCls c)), dpb st (TCls c))) cp.
 Definition cpobs_eqb (a b : cpobs) : bool :=
   let '(c, p, ip, d) := a in let '(c', p', ip', d') := b in
   Nat.eqb c c' && Nat.eqb p p' && Nat.eqb ip ip' && lnat_eqb d d'.
 
-Definition model_stepobs (g : igraph) (st' : state) (o : op) (want wantcp : bool) : stepobs :=
-  ((if raises g st' o then 1 else 0), (if want then Some (model_query g st') else None),
-   (if wantcp then Some (model_cp g st') else None)).
+Definition model_stepobs (g : igraph) (st st' : state) (o : op) (q : option qobs) (cp : option (list cpobs)) : stepobs :=
+  (exc_code g st st' o, option_map (model_query g st') q, option_map (model_cp g st') cp).
 
 Fixpoint model_trace (g : igraph) (st : state) (h : list (op * stepobs)) : list stepobs :=
   match h with
   | [] => []
   | (o, (_, q, cp)) :: h' =>
       let st' := step true g st o in
-      model_stepobs g st' o (match q with Some _ => true | None => false end)
-                    (match cp with Some _ => true | None => false end) :: model_trace g st' h'
+      model_stepobs g st st' o q cp :: model_trace g st' h'
   end.
 
 Definition model_out (c : case_t) : list stepobs := model_trace (fst c) init (snd c).
@@ -111,25 +112,36 @@ Definition spec_cobs (g : igraph) (L : ledger) (a : cobs) : bool :=
   && within (lo_dpb L t) (hi_dpb L t) (mask_of d) && nodupb d.
 
 Definition spec_query (g : igraph) (L : ledger) (q : qobs) : bool :=
-  lnat_eqb (map (fun a => let '(o, _, _, _) := a in o) (fst q)) (l_live_ids L)
-  && lnat_eqb (map (fun a => let '(c, _, _, _, _, _) := a in c) (snd q)) (seq 0 (length (lcs L)))
+  forallb (fun a : iobs => let '(o, _, _, _) := a in mem_nat o (l_live_ids L)) (fst q)
+  && forallb (fun a : cobs => let '(c, _, _, _, _, _) := a in Nat.ltb c (length (lcs L))) (snd q)
   && forallb (spec_iobs g L) (fst q) && forallb (spec_cobs g L) (snd q).
 
 Definition spec_cp (g : igraph) (L : ledger) (cp : list cpobs) : bool :=
-  lnat_eqb (map (fun a => let '(c, _, _, _) := a in c) cp) (seq 0 (length (lcs L)))
+  forallb (fun a : cpobs => let '(c, _, _, _) := a in Nat.ltb c (length (lcs L))) cp
   && forallb (fun a => let '(c, p, ip, d) := a in
                        within (lo_provided g L (TCls c)) (hi_provided g L (TCls c)) p && Nat.eqb ip p
                        && within (lo_dpb L (TCls c)) (hi_dpb L (TCls c)) (mask_of d) && nodupb d) cp.
 
+Definition l_target_builtin (L : ledger) (t : target) : bool :=
+  match t with
+  | TCls c => lclass_builtin L c
+  | TInst o => match nth_error (los L) o with Some r => lclass_builtin L (lo_cls r) | None => false end
+  end.
+
 Definition spec_exc (g : igraph) (L' : ledger) (o : op) (code : nat) : bool :=
-  match o with
-  | NoLongerProvides t x =>
-      match code with
-      | 0 => negb (mem_nat x (lo_provided g L' t))
-      | 1 => mem_nat x (hi_provided g L' t)
-      | _ => false
-      end
-  | _ => Nat.eqb code 0
+  match decl_target o with
+  | Some t =>
+      if l_target_builtin L' t then Nat.eqb code (match t with TCls _ => 2 | TInst _ => 3 end)
+      else match o with
+           | NoLongerProvides t x =>
+               match code with
+               | 0 => negb (mem_nat x (lo_provided g L' t))
+               | 1 => mem_nat x (hi_provided g L' t)
+               | _ => false
+               end
+           | _ => Nat.eqb code 0
+           end
+  | None => Nat.eqb code 0
   end.
 
 Fixpoint spec_trace (g : igraph) (L : ledger) (h : list (op * stepobs)) : bool :=
